@@ -3,7 +3,10 @@ import MelModel.ApplyTx
 import MelModel.Lemmas.Batch
 import MelModel.Props.C20
 namespace Mel
-open Mel.Gen
+open Mel.Gen Mel.BatchL
+-- declarations whose names also occur in other lemma files (Supply, TotalSeal) live in `Mel.TotalL`
+namespace TotalL end TotalL
+open TotalL
 
 /-! ### "does not crash" -/
 
@@ -256,7 +259,7 @@ theorem relVal_of_get {rel : Relevant} {id : CoinID} {c : CoinDataHeight} (h : r
     relVal rel id = c.coinData.value := by
   simp [relVal, AList.valAt, h]
 
-theorem sum_map_le_add {α : Type} (f g h : α → Nat) (l : List α) (hp : ∀ x ∈ l, f x ≤ g x + h x) :
+theorem TotalL.sum_map_le_add {α : Type} (f g h : α → Nat) (l : List α) (hp : ∀ x ∈ l, f x ≤ g x + h x) :
     (l.map f).sum ≤ (l.map g).sum + (l.map h).sum := by
   induction l with
   | nil => simp
@@ -298,7 +301,7 @@ theorem inputs_value_bound {s : State} {txs : List Tx} {rel : Relevant}
 /-! ### `checkTxValidity` -/
 
 /-- one step of the input fold of `checkTxValidity` -/
-def inStep (env : Env) (s : State) (lastHeader : Header) (tx : Tx) (rel : Relevant)
+def TotalL.inStep (env : Env) (s : State) (lastHeader : Header) (tx : Tx) (rel : Relevant)
     (newStakes : AList Hash StakeDoc) (acc : AList Denom Nat) (e : CoinID × Nat) : Outcome (AList Denom Nat) :=
   let coinId := e.1
   if (newStakes.contains coinId.txhash || (s.stakes.getStake coinId.txhash).isSome) && !legacyStakeLock s
@@ -311,7 +314,7 @@ def inStep (env : Env) (s : State) (lastHeader : Header) (tx : Tx) (rel : Releva
         if total > U128_MAX then .crash "applytx.rs: in_coins sum overflow"
         else .ok (acc.set coin.coinData.denom total)
 
-theorem checkTxValidity_eq (env : Env) (s : State) (lh : Header) (tx : Tx) (rel : Relevant)
+theorem TotalL.checkTxValidity_eq (env : Env) (s : State) (lh : Header) (tx : Tx) (rel : Relevant)
     (ns : AList Hash StakeDoc) :
     checkTxValidity env s lh tx rel ns =
       (Outcome.foldlM' (inStep env s lh tx rel ns) [] tx.inputs.zipIdx).bind fun inCoins =>
@@ -445,7 +448,7 @@ theorem calculateReward_eq_of_le {sp ds d : Nat} {b : Bool} (hd : d ≤ 100) (hd
   have h1 : ¬ d ≥ 128 := by omega
   simp only [calculateReward, h1, hds, if_false]
 
-theorem satU128_le (n : Nat) : satU128 n ≤ n := Nat.min_le_left _ _
+theorem TotalL.satU128_le (n : Nat) : satU128 n ≤ n := Nat.min_le_left _ _
 
 theorem satMul128_le (a b : Nat) : satMul128 a b ≤ a * b := Nat.min_le_left _ _
 
